@@ -15,6 +15,7 @@ mod c10;
 mod c12;
 mod c13;
 mod c16;
+mod c17;
 mod c18;
 mod c19;
 mod sim;
@@ -35,6 +36,7 @@ fn main() {
             "life" => life::run(&a[2..]),
             "c06" => c06::run(&a[2..]),
             "c14" => c14::run(&a[2..]),
+            "c17" => c17::run(&a[2..]),
             "c03" => c03::run(&a[2..]),
             "c04e2e" => c03::run_ctr(&a[2..]),
             "c04" => c04::run(&a[2..]),
